@@ -118,6 +118,11 @@ PAIRS = {
     '::read_transport': ['h_pairs::c04_slim_ip_v4_udp', 'h_pairs::c04_slim_ip_v6_udp'],
     'Ipv6Extensions::from_slice': ['h_pairs::p_ext_struct_walk'],
     'Ipv6Extensions::from_slice_lax': ['h_pairs::p_ext_struct_walk_lax'],
+    # bit-level contracts (clause label bits_*): complete loop-free harness over the whole domain
+    'Ipv6Header::set_dscp': ['h_newtypes::c15_ipv6_header_traffic_class'],
+    'Ipv6Header::set_ecn': ['h_newtypes::c15_ipv6_header_traffic_class'],
+    'Ipv6Header::dscp': ['h_newtypes::c15_ipv6_header_traffic_class'],
+    'Ipv6Header::ecn': ['h_newtypes::c15_ipv6_header_traffic_class'],
     # checksums: protocol-level harnesses with the RFC oracle (small payloads) + the 64 KiB boundary harnesses
     'UdpHeader::calc_checksum_post_ip': ['h_builder::c09_k_proto_udp_ipv4', 'h_builder::c09_k_proto_udp_ipv6'],
     'UdpHeader::calc_checksum_ipv4_internal': ['h_builder::c09_k_proto_udp_ipv4'],
@@ -397,3 +402,4 @@ harness('h_pairs::p_ext_struct_walk_lax', ['C04', 'C05', 'C07'], 'bounded (all c
 # ---- C05 at the link-extension level ----------------------------------------------------------------------------------------------
 harness('h_pairs::c05_link_exts_macsec', ['C05'], 'bounded (all inputs <= 24 B behind ether type MACsec)', 'strict slicing Ok ==> lax slicing returns the same link extensions (kind, header bytes, payload bytes), no stop error, nothing incomplete', tier='thorough', bound='N=24, unwind 5', timeout=2400, heavy=True)
 harness('h_pairs::c05_link_exts_vlan', ['C05'], 'bounded (all inputs <= 16 B behind ether type VLAN)', 'same, stacked VLAN tags', tier='thorough', bound='N=16, unwind 5', timeout=2400, heavy=True)
+harness('h_newtypes::c15_ipv6_header_traffic_class', ['C15'], 'complete (loop-free, all traffic class octets x all DSCP/ECN values x symbolic other fields)', 'Ipv6Header::set_dscp/set_ecn change exactly their own bits, dscp()/ecn() read them back, no other field changes', tier='quick', bound='none', timeout=300)
